@@ -26,12 +26,14 @@ CLAIMED = {
  "C16": ("model_checking", "boundary lattice of the spec enumerated by TLC (Gen_Defaults.tla), each point through the real Default / IsDefaulted / Validate and both real Reconcile functions; reference transcription of defaulting and validation in Judge_Defaults.tla; recovered panics monitored on every step of every trace (P_C16)", "TLA+ reference of defaulting/validation evaluated on the complete bounded lattice of real results"),
  "C19": ("model_checking", "C19_Step: frame condition and precondition of every kubectl-eds command body (run through verif shims with the cluster client) on the object diff, interpretation by the following real reconciles (state function, promotion of the validated replica set, rollback)", "TLC trace validation of real command executions"),
  "C20": ("model_checking", "Gen_Labels.tla enumerates label maps over an alphabet with all illegal characters (collisions included) and a lattice of status values; Judge_Labels.tla evaluates the real BuildInfoLabels and metric family generators", "TLA+ reference evaluated on the complete bounded input space of the real functions"),
+ "C06": ("model_checking", "Gen_Canary.tla enumerates canary pod vectors x thresholds x previous conditions x annotations; one real sync of the canary replica set each; C06_Step (spec/Conf.tla) compares the Canary-Failed / Canary-Paused outcome with Ctrl!Can, the TLA+ transcription of the documented triggers, and checks stickiness, disabled switches and the creation stop", "TLA+ reference of the canary evaluation judged on real syncs of TLC-enumerated states"),
+ "C17": ("other", "error accounting: Gen_Batch.tla batches of 2..64 parallel pod operations with none/first/alternate/all API calls failing through the real sync, judged by C17_Step; interleaving safety: four reconcilers + kubelet + clock + user as goroutines on one store, sampled states and convergence tail judged by TLC (I_C17, P_C17c, C02); data races: the same executions run under the Go race detector", "TLA+ formulas on recorded executions + Go race detector on the same executions"),
+ "C18": ("model_checking", "Gen_Settings.tla: reference transcription of the conflict search, exhaustive design check (at most one valid setting per node for every bounded population), and every population x reconcile orders through the real reconciler; C18_Step at SettingsDone, C10_Step on the pods the following real sync creates", "TLA+ reference + exhaustive populations through the real setting reconciler"),
 }
 NA = {
- "C06": "check under construction (function-level conformance of the canary evaluation); not yet registered",
 
- "C17": "check under construction; not yet registered",
- "C18": "check under construction; not yet registered",
+
+
 
 }
 
